@@ -3,6 +3,6 @@
 S=$1; C=$2; T=${3:-quick}
 WT=/var/tmp/seedrun-$S-$$
 git -C /repo worktree add -q --detach $WT HEAD || exit 2
-( cd $WT && git apply /verif/seeded/$S/patch.diff ) || { echo "patch does not apply"; git -C /repo worktree remove --force $WT; exit 2; }
+( cd $WT && { git apply /verif/seeded/$S/patch.diff 2>/dev/null || git apply -3 /verif/seeded/$S/patch.diff; } ) || { echo "patch does not apply"; git -C /repo worktree remove --force $WT; exit 2; }
 ( cd /verif && VERIF_REPO=$WT ./check $C $T 2>&1 | grep -E "^(VIOLATION|KNOWN-FINDING)" | cut -c1-220; echo "exit=${PIPESTATUS[0]}" )
 git -C /repo worktree remove --force $WT
